@@ -97,6 +97,12 @@ class ExitStack:
         self.cbs = self.cbs + ((f, args),)
         return f
 
+    def push(self, cm):
+        # push(obj): obj.__exit__ is called on exit (exception details are not forwarded in this model: the pushed
+        # objects used by the repository - locks - ignore them and never swallow)
+        self.cbs = self.cbs + ((cm.__exit__, (None, None, None)),)
+        return cm
+
     def __exit__(self, et, ev, tb):
         pending = None
         for f, args in reversed(self.cbs):
